@@ -1,16 +1,3 @@
-"""Human-written level texts for MANIFEST.json (one entry per claimed property)."""
+"""MANIFEST texts now live in tools/props/Cxx.json ("manifest" key); kept for gen_manifest.py."""
+from propconf import TEXT  # noqa: F401
 NOT_APPLICABLE = {}
-TEXT = {
-    "C15": {
-        "text": "Proof: a Lean model of bmp::Message::from_octets, the seven check functions and every accessor/iterator (each slice, index, unwrap and checked arithmetic an explicit panicking operation), including OpenMessage::parse / Parameter::parse / Capability::parse and NotificationMessage::parse used for the embedded PDUs. Theorems (all byte strings, no size bound): decoding never panics; on an accepted message every accessor group returns a value and every iterator terminates with exactly the announced number of items. The model is tied to the code by differential execution of the same byte strings (valid, mutated, random) with all accessors observed. 10 defects found this way were repaired by fix: commits; the corpus replays their inputs first.",
-        "design_ref": "DESIGN.md section 7, C15",
-        "note": "Trusted: Lean kernel; hand-written model validated differentially on each run; chrono's timestamp acceptance rule and from_utf8_lossy are modelled by their observable effect only. Decoding of the embedded UPDATE/OPEN contents is the subject of C01/C03; here they are shown to be located and returned byte for byte.",
-        "technique": "Lean 4 totality + accessor theorems over a byte-level model; differential correspondence incl. malformed stream",
-    },
-    "C18": {
-        "text": "Proof: the generic semantics of typeenum!/afisafi! (number->enum->number identity, injectivity, catch-all preservation, AFI/SAFI byte encoding for all pairs) is proved in Lean for every table; the theorems about hand-written match tables (Header::msg_type, AddpathDirection, SegmentType, details()/raw()) are re-proved against tables regenerated from the current source by a translator on every run. The model is additionally tied to the code by an exhaustive differential run over every u8/u16 value of all 23 enumerations and all 65536 (code, subcode) pairs. A universally quantified statement over finite tables is exactly what a kernel-checked decision plus an exhaustive correspondence settles completely.",
-        "design_ref": "DESIGN.md section 7, C18",
-        "note": "Trusted: Lean kernel; translator tools/gen_codepoints.py; hand-written generic macro semantics (validated exhaustively each run); rustc match semantics. Known finding K1 (details() drops the subcode for codes 0 and 4) is proved false of the model (details_roundtrip_fails) and the proved part is details_roundtrip_partial.",
-        "technique": "Lean 4 theorems over tables regenerated from source + exhaustive differential correspondence",
-    },
-}
